@@ -1053,6 +1053,7 @@ type SitInfo struct {
 	RenOld    string     `json:"ren_old,omitempty"` // service id registered again under another name
 	RenNew    string     `json:"ren_new,omitempty"`
 	MovedFrom []string   `json:"moved_from,omitempty"` // names (and destinations) of services an existing check leaves
+	MovedStale []string  `json:"moved_stale,omitempty"` // ... when the check row carries a STALE name: current name (and destination) of the service it leaves
 	Stale     []StaleRef `json:"stale,omitempty"`      // stale-named checks the write touches
 	ConnRem   []string   `json:"conn_rem,omitempty"`   // destinations that lose a connect instance
 	ConnAdd   []string   `json:"conn_add,omitempty"`   // ... gain one
@@ -1146,6 +1147,9 @@ func (si *SitInfo) checkWrite(s *state.Store, node string, c CheckSpec) {
 			si.MovedFrom = append(si.MovedFrom, hc.ServiceName)
 			if ns != nil {
 				si.MovedFrom = append(si.MovedFrom, ns.Service, connDest(ns))
+				if ns.Service != hc.ServiceName {
+					si.MovedStale = append(si.MovedStale, ns.Service, connDest(ns))
+				}
 			}
 		}
 	}
@@ -1180,6 +1184,7 @@ func situation(s *state.Store, op *Op) SitInfo {
 				si.RenOld, si.RenNew = sub.RenOld, sub.RenNew
 			}
 			si.MovedFrom = append(si.MovedFrom, sub.MovedFrom...)
+			si.MovedStale = append(si.MovedStale, sub.MovedStale...)
 			si.Stale = append(si.Stale, sub.Stale...)
 			si.ConnRem = append(si.ConnRem, sub.ConnRem...)
 			si.ConnAdd = append(si.ConnAdd, sub.ConnAdd...)
